@@ -400,6 +400,32 @@ def r19_3_spool(ctx: Ctx, entry):
         raise AnchorMissing("plan.report: stdin spool (os.fdopen) not found")
 
 
+def _name_as_text(fn, e, pth: str, seen=None, depth=0) -> bool:
+    """Does the parameter `pth` (the input's NAME) reach the written text `e` as text -- directly, formatted, or through local names --
+    rather than as the file that is opened and read?  (`f.read()` of a file opened by that name is the content, not the name.)"""
+    from ..order import local_resolver
+    seen = set() if seen is None else seen
+    if depth > 12:
+        return True
+    if isinstance(e, ast.Constant):
+        return False
+    if isinstance(e, ast.Name):
+        if e.id == pth:
+            return True
+        if e.id in seen:
+            return False
+        seen = seen | {e.id}
+        return any(_name_as_text(fn, d, pth, seen, depth + 1) for d in local_resolver(fn.node)(e))
+    if isinstance(e, ast.Call):
+        if isinstance(e.func, ast.Attribute) and e.func.attr in ("read", "readlines", "read_text", "read_bytes") and not e.args:
+            return False
+        parts = list(e.args) + [k.value for k in e.keywords]
+        if isinstance(e.func, ast.Attribute):
+            parts.append(e.func.value)
+        return any(_name_as_text(fn, x, pth, seen, depth + 1) for x in parts)
+    return any(_name_as_text(fn, x, pth, seen, depth + 1) for x in ast.iter_child_nodes(e) if isinstance(x, ast.expr))
+
+
 def r19_8(ctx: Ctx, entry):
     """Input handling of the command:
       (a) what is written into the temporary project file is the input's content, constants and the random report id -- never
@@ -413,15 +439,14 @@ def r19_8(ctx: Ctx, entry):
     n = 0
     for c in own_nodes(ca):
         if isinstance(c, ast.Call) and isinstance(c.func, ast.Attribute) and c.func.attr in ("write", "writelines") and c.args:
-            atoms = data(fd.deps_of(c.args[0]))
             n += 1
-            ok = (f"param:{pth}" not in atoms) or ("call:read" in atoms)
+            ok = not _name_as_text(ca, c.args[0], pth)
             ctx.ob("R19.8", f"{ca.qual}: {norm(c)[:70]}", (ca, c), ok,
                    "content, constants and the report id only" if ok else
                    f"the text written into the temporary project file is built from the input's name ({pth}), not from its content: a file name "
                    "with a newline (or a quote) becomes project text, and the same bytes give a different result from a file than from stdin",
                    key=key_of("R19.8", ca, c.args[0], "name as project text"))
-    if n < 2:
+    if n < 1:
         raise AnchorMissing("create_auto_report_file: writes of the temporary project file not found")
     vt = repo.func("validate_tjp_file")
     probes = [c for c in own_nodes(vt) if isinstance(c, ast.Call) and isinstance(c.func, ast.Attribute)
